@@ -1,5 +1,6 @@
 """C09 - a suspended generator does not leak its call-path context to its caller."""
 import json
+import os
 import random
 
 from .. import core, lifecheck as L
@@ -78,9 +79,29 @@ def judge(out, cases, traces, fails):
                       {"case": c, "verdict": f})
 
 
+def run_relay(out, tier, work):
+    """generators nested in one another, ended from outside in every way (TraceRelay.tla)"""
+    top = 3 if tier == "quick" else 5
+    cases = [{"id": len(cs_) + 0, "n": n, "steps": k, "end": e} for cs_ in [[]] for n in range(0, top + 1) for k in range(0, top + 2)
+             for e in ("close", "drop", "exhaust")]
+    for i, c in enumerate(cases):
+        c["id"] = i + 1
+    cin, cout = os.path.join(work, "relay_in.json"), os.path.join(work, "relay_out.json")
+    json.dump(cases, open(cin, "w"))
+    core.run_driver("harness.drivers.relay_driver", [cin, cout])
+    r = core.run_tlc("TraceRelay", "TraceRelay.cfg", env={"TRACE_FILE": cout}, workers=1, timeout=600)
+    out.add_tlc("TraceRelay", r)
+    res = {c["id"]: c for c in json.load(open(cout))}
+    for tup in r.tagged("FAIL"):
+        out.judge({"clause": "Relay:" + tup[2], "end": res[tup[1]]["end"]}, {"case": res[tup[1]], "at": tup[3]})
+    out.traces += len(cases)
+    out.extra["relay_histories"] = len(cases)
+
+
 def run(out, tier, seed):
     rng = random.Random(seed * 7919 + 37)
     work = core.scratch("c09-")
+    run_relay(out, tier, work)
     plans = [(6, ["g1"], ("o1", "o2"), False), (6, ["g1"], ("o1", "o3"), True)] if tier == "quick" else \
         [(7, ["g1"], ("o1", "o2"), False), (7, ["g1", "g2"], ("o1", "o2"), False), (7, ["g1"], ("o1", "o2", "o3"), True)]
     cases = []
